@@ -1,5 +1,6 @@
 import PlumpyModel.PM.Proof3
 import PlumpyModel.PM.Proof12
+import PlumpyModel.PM.LProof12
 import PlumpyModel.Status.Model
 /-!
 # C05 — pause/play is transparent: nothing runs while paused
@@ -269,6 +270,82 @@ example : unpaused wc2 (init 1) wc2Hist = [.tick, .complete 0 (.result 3), .tick
 example : fuelOk wc2 (init 1) (unpaused wc2 (init 1) wc2Hist) = true := by decide +kernel
 example : (run wc2 (init 1) wc2Hist).st = .finished (some 3) true := by decide +kernel
 end
+/-!
+## pause / play requested DURING a transition (listeners, state-event callbacks)
+
+Model: `PMF.L` (see the section of the same name in `Props/C04.lean`).  `fireN n`: notifications with the oracle's requests nested
+at most `n` deep; `endOfStepL`: the closing part of `Process.step()`; `NoInt c c'`: every interruption found on a wait future of `c'`
+was already there in `c`.
+-/
+namespace L
+
+/-- **no user code while paused, with listeners**: for every program, every plan of `pause()` / `play()` / `kill()` calls made by
+listeners and state-event callbacks from inside notifications (in the middle of transitions, while a pending request is being
+enacted, …) and every history of ticks and requests, no step function or continuation is ever started while the process reports
+paused — in particular not the step that follows, in the same callback, a step during whose closing part a listener paused. -/
+theorem C05_listener_nothing_runs_while_paused (P : Prog) (nf : Nat) (plan : Plan) (evs : List Ev) :
+    ∀ a ∈ (runL P (initL nf plan) evs).c.trace, a.paused = false :=
+  (runL_invP P (initL nf plan) evs (invP_init nf)).traceOk
+
+/-- **a request made while a step is closing interrupts nothing** [F24, F26]: for every configuration, plan, nesting depth and
+outcome of the step, the closing part of the step (in which listeners and state-event callbacks may `pause()`, `play()`, `kill()`
+in any combination, also while an earlier request is being enacted) puts no interruption on any wait future — so the state the
+step has entered is not interrupted later by a request that was already enacted (no second pause after the next `play()`). -/
+theorem C05_listener_no_stale_interruption (n : Nat) (l : LCfg) (r : StepEnd) : NoInt l.c (endOfStepL (fireN n) l r).c :=
+  endOfStepL_noInt (fireN_ni n) l r
+
+/-- … in particular the wait future of the WAITING state that the step returns carries no interruption when the step has ended -/
+theorem C05_listener_new_wait_not_interrupted (n : Nat) (l : LCfg) (fn k : Nat) :
+    (finishUserL (fireN n) l (.ret (.wait fn))).c.wfs[l.c.wfs.length]? ≠ some (.interrupted k) :=
+  finishUserL_wait_noInt (fireN_ni n) l fn k
+
+/-- **`play()` really un-pauses, also from inside `on_process_paused`** [F26]: called while a step is in progress (e.g. by a
+listener while the pause is being enacted at the end of the step), `play()` returns with the process not paused, whatever the
+`on_process_played` listeners request in turn. -/
+theorem C05_listener_play_unpauses (n : Nat) (l : LCfg) (hs : l.c.stepping = true) :
+    (playL (fireN n) l).1.c.paused = none ∧ (playL (fireN n) l).2 = .bool true :=
+  ⟨playL_unpauses (fireN_pn n) l hs, by unfold playL; split <;> rfl⟩
+
+/-- … and a `pause()` or `kill()` made while a step is in progress never pauses at once -/
+theorem C05_listener_requests_deferred (n : Nat) (h : Hook) (l : LCfg) (hs : l.c.stepping = true) (hp : l.c.paused = none) :
+    (fireN n h l).c.paused = none := fireN_pn n h l hs hp
+
+/-- **`play()` during the transition of a pending pause retracts the pause** [F23]: the pause action `i` performs the step's
+transition; if a listener or state-event callback of that transition calls `play()` (which clears `_pausing` and cancels the
+action: `C05_play_cancels_pending_pause`), the action does not pause after the transition: `paused`, the notifications and the
+state are exactly what the transition left. -/
+theorem C05_listener_play_retracts (F : Hook → LCfg → LCfg) (l : LCfg) (i : Nat) (s : SObj) (a : Action)
+    (ha : l.c.actions[i]? = some a) (hp : a.status = .pending) (hk : a.kind = .pause)
+    (hr : (transitionToL F l s).c.pausing = none) :
+    (runActionL F l i (some s)).c.paused = (transitionToL F l s).c.paused ∧
+    (runActionL F l i (some s)).c.notif = (transitionToL F l s).c.notif ∧
+    (runActionL F l i (some s)).c.st = (transitionToL F l s).c.st :=
+  runActionL_retracted F l i s a ha hp hk hr
+
+-- non-vacuity (the witnesses of F23, F24, F26)
+section
+private def async2 : Prog := fun fn _ _ _ => if fn = 0 then ⟨2, .ret (.cont 1 [] [])⟩ else ⟨1, .ret (.stop (some 3) true)⟩
+private def waiter : Prog := fun fn _ _ _ => if fn = 0 then ⟨0, .ret (.wait 1)⟩ else ⟨0, .ret (.stop (some 7) true)⟩
+-- F23: a pause is pending; `on_process_running` of the step's transition plays: not paused, the action future is cancelled
+example : (runL async2 (initL 0 [(.running, 2, .play)]) [.tick, .pause, .tick, .tick]).c.paused = none ∧
+    (runL async2 (initL 0 [(.running, 2, .play)]) [.tick, .pause, .tick, .tick]).c.notif = [.running, .running] := by decide +kernel
+-- F24: `on_process_waiting` pauses during the transition into WAITING: paused once, the wait future is still pending, and after
+-- play + resume the process finishes
+example : (runL waiter (initL 0 [(.waiting, 1, .pause)]) [.tick]).c.paused ≠ none ∧
+    (runL waiter (initL 0 [(.waiting, 1, .pause)]) [.tick]).c.wfs = [.pending] := by decide +kernel
+example : (runL waiter (initL 0 [(.waiting, 1, .pause)]) [.tick, .play, .resume (some 5), .tick]).c.st.label = .finished := by
+  decide +kernel
+-- F26: a pause is pending when the waiting step is interrupted; `on_process_paused` plays while it is enacted, `on_process_played`
+-- pauses again: the re-armed wait future (index 1) is pending, the process is paused once more and finishes after play + resume
+example : (runL waiter (initL 0 [(.paused, 1, .play), (.played, 1, .pause)]) [.tick, .pause, .tick]).c.wfs = [.interrupted 0, .pending] ∧
+    (runL waiter (initL 0 [(.paused, 1, .play), (.played, 1, .pause)]) [.tick, .pause, .tick]).c.notif =
+      [.paused, .played, .paused, .waiting, .running] := by decide +kernel
+example : (runL waiter (initL 0 [(.paused, 1, .play), (.played, 1, .pause)]) [.tick, .pause, .tick, .play, .resume none, .tick]).c.st.label
+    = .finished := by decide +kernel
+end
+
+end L
+
 end PMF
 
 /-! ### the status message (model `StatusM`: `set_status`, `on_paused`, `on_playing`) -/
